@@ -28,7 +28,7 @@ class C05(Engine):
     name = "read-fault-sim"
     level = "fault_enumeration"
     expected_kinds = {"prefix_tok", "prefix_chr", "tok_del", "tok_rep", "tok_ins", "tok_swap", "edit_pair", "flip",
-                      "non_ascii", "bad_utf8", "lex_exhaustive", "lex_seeded", "lex_long_run", "pipeline_long_run", "cli_level"}
+                      "non_ascii", "bad_utf8", "lex_exhaustive", "lex_seeded", "lex_long_run", "pipeline_long_run", "pipeline_deep_nest", "cli_level"}
     rule_text = ("Every workload program (repository samples, generated conforming/violating files, literal families) x both file "
                  "types x every token boundary (prefix_tok) and every single-token deletion (tok_del) is executed, plus the middle of "
                  "every multi-character token (prefix_chr), seeded token replace/insert/swap/pairs, byte flips, non-ASCII and invalid "
@@ -169,6 +169,7 @@ class C05(Engine):
             yield 5_000_000 + i, sc
         # tokenizer alone
         yield from self.lex_scenarios()
+        yield from self.nest_scenarios()
 
     def lex_scenarios(self):
         q = self.tier == "quick"
@@ -220,6 +221,27 @@ class C05(Engine):
                             "files": {"x": {"name": "run.c", "content": "int\tmain(void)\n{\n\treturn (" + u * ln}},
                             "ops": [{"op": "api", "file": "x"}]}
                 idx += 1
+
+    def nest_scenarios(self):
+        """Deep nesting: one statement, thousands of levels (Python frames must not be the limit)."""
+        idx = 9_000_000
+        q = self.tier == "quick"
+        for n in ([1100, 3000] if q else [500, 1100, 3000, 6000]):
+            for u, v in (("(", ")"), ("[", "]"), ("{", "}")):
+                for closed in (True, False):
+                    close = v * n if closed else ""
+                    forms = [f"\ta = {u * n}1{close};\n", f"\tft_x({u * n}1{close});\n", f"\tif ({u * n}a{close})\n\t\ta++;\n",
+                             f"\treturn ({u * n}0{close});\n"]
+                    if u == "(":
+                        forms.append(None)
+                    for k, body in enumerate(forms):
+                        if body is None:
+                            content = f"#if {u * n}1{close}\n# define A 1\n#endif\n"
+                        else:
+                            content = "int\tmain(void)\n{\n" + body + "\treturn (0);\n}\n"
+                        yield idx, {"kind": "fault", "fault": "pipeline_deep_nest", "desc": f"nest {u!r}*{n} closed={closed} form={k}",
+                                    "files": {"x": {"name": "nest.c", "content": content}}, "ops": [{"op": "api", "file": "x"}]}
+                        idx += 1
 
     # ---- oracle ------------------------------------------------------------------------------------
     def judge(self, sc, res, refs):
